@@ -339,6 +339,9 @@ func H_C20_force_readonly() {
 	w := verifNewWorld(verifConfig("h1"), []string{"h1", "h2"}, nil)
 	verifHealthy(w, "h1")
 	mysql.VerifHook_Node_SetReadOnlyWithForce = nil
+	// no event log: natively the kill loop runs concurrently with the forced attempt, so the order
+	// of their statements is up to the Go scheduler (the final state and the leak count are not)
+	w.fleet.Quiet = true
 	mysql.VerifHook_Node_getRunningQueryIDs = func(n *mysql.Node, excludeUsers []string, timeout time.Duration) ([]int, error) {
 		verifnd.Reach("C20.go.force-ro.kill-loop")
 		switch verifnd.Choose("running-queries", 3) {
